@@ -405,6 +405,9 @@ func gen(r *hxlib.Run, emit func(hxlib.Case)) {
 		add("timeout", genScenario(r.Rng, "timeout"))
 	}
 	n := r.Budget(800, 12000)
+	if v, err := strconv.Atoi(os.Getenv("HX_C05_SCALE_PERCENT")); err == nil && v > 0 {
+		n = n * v / 100 // development aid (mutation runs); never set by ./check
+	}
 	for i := 0; i < n; i++ {
 		var k string
 		switch x := r.Rng.Intn(10); {
